@@ -148,7 +148,7 @@ def treedump (ts : TState) : String :=
   let ns := ts.nodes.map (fun n =>
     let sum := n.exec.foldl (fun a e => a + e.2) 0
     let parked := if n.parked.isEmpty then "-" else ",".intercalate (sortStrings (n.parked.map (fun w => s!"{w.host}.{w.thread}")))
-    s!"n {n.scq.pq}/{n.scq.sc} p={showPath n.path} ops={showNats (sortNats n.qops)} qk={showNats (sortNats n.qkids)} ik={showNats (sortNats n.ikids)} prio={if n.isQueued then toString n.prio else "-"} ex={n.exec.length}/{sum} st={n.started} co={n.completed} idle={n.idle} parked={parked}")
+    s!"n {n.scq.pq}/{n.scq.sc} p={showPath n.path} ops={showNats (sortNats n.qops)} qk={showNats (sortNats n.qkids)} ik={showNats (sortNats n.ikids)} prio={if n.isQueued && !n.path.isEmpty then toString n.prio else "-"} ex={n.exec.length}/{sum} st={n.started} co={n.completed} idle={n.idle} parked={parked}")
   let xs := ts.wx.map (fun y =>
     let last := match y.last with | some p => showPath p | none => "nil"
     s!"x {showW y.scq y.id} last={last} sticks={showNats y.sticks} parked={b01 y.parked}")
